@@ -178,62 +178,78 @@ func c09Family() []c09EnumCase {
 	for _, form := range allForms {
 		for _, target := range allProtos {
 			for _, codecs := range [][]string{{CodecProto}, {CodecJSON}} {
-				form, target := form, target
-				methods := []string{"Bidi", "ClientStream", "ServerStream"}
-				if form == FormConnectUnary || form == FormConnectGet || form == FormREST {
-					methods = []string{"Unary", "UnaryGet", "ServerStream"}
-				}
-				sc := exampleScenario(genOpts{maxBlob: 6, noText: true, forms: []string{form}, methods: methods, backendKinds: []string{"ok"}},
-					func(sc *Scenario) bool {
-						if sc.Client.Form != form {
-							return false
-						}
-						enc, err := encodeRequest(cloneScenario(sc))
-						return err == nil && len(enc.Body) <= 160
-					})
-				if sc == nil {
-					continue
-				}
-				sc = cloneScenario(sc)
-				sc.Config = Config{Protocols: []string{target}, Codecs: codecs, Compressions: []string{CompGzip}, MaxMsg: 1 << 20}
-				sc.Backend.Fault, sc.Client.Fault = nil, nil
-				out0 := runScenario(cloneScenario(sc))
-				if out0.BuildErr != "" || out0.ConfigErr != "" || out0.Backend == nil || out0.Sent == nil {
-					continue
-				}
-				idx := len(c09EnumBases)
-				c09EnumBases = append(c09EnumBases, sc)
-				if n := len(out0.Sent.Body); n > 0 {
-					for k := 0; k < n; k++ {
-						out = append(out, c09EnumCase{idx, true, Fault{Kind: FaultCut, At: k}})
+				for _, sameCodec := range []bool{true, false} {
+					form, target := form, target
+					if form == FormREST && (codecs[0] == CodecJSON) != sameCodec {
+						continue // a REST client speaks JSON only
 					}
-					if formEnveloped(form) {
-						for fi := range frameOffsets(out0.Sent.Body) {
-							for v := 0; v < 256; v++ {
-								cs := c09EnumCase{idx, true, Fault{Kind: FaultFlag, At: fi, Val: v}}
-								if specialFlag(v) {
-									c09Always = append(c09Always, cs)
-								} else {
-									out = append(out, cs)
+					methods := []string{"Bidi", "ClientStream", "ServerStream"}
+					if form == FormConnectUnary || form == FormConnectGet || form == FormREST {
+						methods = []string{"Unary", "UnaryGet", "ServerStream"}
+					}
+					sc := exampleScenario(genOpts{maxBlob: 6, noText: true, forms: []string{form}, methods: methods, backendKinds: []string{"ok"}},
+						func(sc *Scenario) bool {
+							if sc.Client.Form != form {
+								return false
+							}
+							// at least one message each way (so that there are frames to damage) and a small body
+							if len(sc.Client.Msgs) < 1 || len(sc.Backend.Msgs) < 1 {
+								return false
+							}
+							enc, err := encodeRequest(cloneScenario(sc))
+							return err == nil && len(enc.Body) <= 160
+						})
+					if sc == nil {
+						continue
+					}
+					sc = cloneScenario(sc)
+					// the client speaks the target's codec (re-framing path) or the other one (re-encoding path)
+					if form != FormREST {
+						sc.Client.Codec = codecs[0]
+						if !sameCodec {
+							sc.Client.Codec = map[string]string{CodecProto: CodecJSON, CodecJSON: CodecProto}[codecs[0]]
+						}
+					}
+					sc.Config = Config{Protocols: []string{target}, Codecs: codecs, Compressions: []string{CompGzip}, MaxMsg: 1 << 20}
+					sc.Backend.Fault, sc.Client.Fault = nil, nil
+					out0 := runScenario(cloneScenario(sc))
+					if out0.BuildErr != "" || out0.ConfigErr != "" || out0.Backend == nil || out0.Sent == nil {
+						continue
+					}
+					idx := len(c09EnumBases)
+					c09EnumBases = append(c09EnumBases, sc)
+					if n := len(out0.Sent.Body); n > 0 {
+						for k := 0; k < n; k++ {
+							out = append(out, c09EnumCase{idx, true, Fault{Kind: FaultCut, At: k}})
+						}
+						if formEnveloped(form) {
+							for fi := range frameOffsets(out0.Sent.Body) {
+								for v := 0; v < 256; v++ {
+									cs := c09EnumCase{idx, true, Fault{Kind: FaultFlag, At: fi, Val: v}}
+									if specialFlag(v) {
+										c09Always = append(c09Always, cs)
+									} else {
+										out = append(out, cs)
+									}
 								}
 							}
 						}
 					}
-				}
-				resp := buildResponse(sc, out0.Backend)
-				if n := len(resp.Body); n > 0 && n <= 400 {
-					for k := 0; k < n; k++ {
-						out = append(out, c09EnumCase{idx, false, Fault{Kind: FaultCut, At: k}})
-					}
-					v := out0.Backend
-					if v.Protocol == ProtoGRPC || v.Protocol == ProtoGRPCWeb || (v.Protocol == ProtoConnect && v.Sub == "stream") {
-						for fi := range frameOffsets(resp.Body) {
-							for fv := 0; fv < 256; fv++ {
-								cs := c09EnumCase{idx, false, Fault{Kind: FaultFlag, At: fi, Val: fv}}
-								if specialFlag(fv) {
-									c09Always = append(c09Always, cs)
-								} else {
-									out = append(out, cs)
+					resp := buildResponse(sc, out0.Backend)
+					if n := len(resp.Body); n > 0 && n <= 400 {
+						for k := 0; k < n; k++ {
+							out = append(out, c09EnumCase{idx, false, Fault{Kind: FaultCut, At: k}})
+						}
+						v := out0.Backend
+						if v.Protocol == ProtoGRPC || v.Protocol == ProtoGRPCWeb || (v.Protocol == ProtoConnect && v.Sub == "stream") {
+							for fi := range frameOffsets(resp.Body) {
+								for fv := 0; fv < 256; fv++ {
+									cs := c09EnumCase{idx, false, Fault{Kind: FaultFlag, At: fi, Val: fv}}
+									if specialFlag(fv) {
+										c09Always = append(c09Always, cs)
+									} else {
+										out = append(out, cs)
+									}
 								}
 							}
 						}
@@ -261,7 +277,7 @@ func enumerateC09(t *testing.T) {
 		"the same fixed exchanges: the flag byte of every frame of request and response set to each value that means something in one of the protocols (0, 1, 2, 3, 4, 0x80-0x83, 0xff)",
 		len(c09Always), 1, func(i int) (any, *CheckResult) { return run(c09Always[i]) })
 	enumerate(t, "C09", "cut_points_and_flags",
-		fmt.Sprintf("%d fixed exchanges (6 client forms x 4 single target protocols x target codec proto/json, gzip offered, up to 4 messages each way): the request body and the response body cut after every byte offset, and the flag byte of every frame set to every value 0-255", len(c09EnumBases)),
+		fmt.Sprintf("%d fixed exchanges (6 client forms x 4 single target protocols x target codec proto/json x client codec same/other, gzip offered, 1 to 4 messages each way): the request body and the response body cut after every byte offset, and the flag byte of every frame set to every value 0-255", len(c09EnumBases)),
 		len(fam), 8, func(i int) (any, *CheckResult) {
 			c := fam[i]
 			sc := cloneScenario(c09EnumBases[c.base])
@@ -316,7 +332,11 @@ func c08Family() []c08EnumCase {
 		for k := 1; k <= m; k++ {
 			k := k
 			add(fmt.Sprintf("write_chunk=%d", k), func(sc *Scenario) { sc.Backend.WriteChunk = k })
-			add(fmt.Sprintf("write_chunk=%d flush", k), func(sc *Scenario) { sc.Backend.WriteChunk = k; sc.Backend.FlushEvery = 1; sc.Backend.ExplicitHead = true })
+			add(fmt.Sprintf("write_chunk=%d flush", k), func(sc *Scenario) {
+				sc.Backend.WriteChunk = k
+				sc.Backend.FlushEvery = 1
+				sc.Backend.ExplicitHead = true
+			})
 			if k < m {
 				add(fmt.Sprintf("write_split=%d", k), func(sc *Scenario) { sc.Backend.WriteSplits = []int{k}; sc.Backend.EmptyWrites = k%2 == 0 })
 			}
